@@ -238,6 +238,171 @@ def rtree_coq(parents_children, root):
 
 
 # ---------------------------------------------------------------------------------------------------
+# [str7] reference trees PRODUCED / EDITED by other library operations (for TTNO.from_tensor)
+# ---------------------------------------------------------------------------------------------------
+def tree_relations(tree):
+    """the tree as its parent / children relations (never the dictionary order): id -> [parent, children]"""
+    return {k: [nd.parent, list(nd.children)] for k, nd in tree.nodes.items()}
+
+
+def order_inversions(tree):
+    """(some node is listed in tree.nodes before its parent, some such parent is itself a non-root node with a non-root parent)"""
+    pos = {k: i for i, k in enumerate(tree.nodes)}
+    inv = deep = False
+    for k, nd in tree.nodes.items():
+        p = nd.parent
+        if p is not None and pos[p] > pos[k]:
+            inv = True
+            gp = tree.nodes[p].parent
+            if gp is not None and tree.nodes[gp].parent is not None:
+                deep = True
+    return inv, deep
+
+
+def edit_reference_tree(ref, rng, nedits, bare=False):
+    """Applies `nedits` random PUBLIC library operations to the tree: rename (change_node_identifier, fresh identifiers, identifiers that
+    are prefixes / extensions of others, identifiers freed earlier), replace_node (same legs or one more open leg), contract_nodes +
+    split_node_qr / split_node_svd (either argument order, old or fresh identifiers, default or explicit identifier of the contracted
+    node), add_parent_to_root, deepcopy / pickle round trips, and calls the library REJECTS (non-neighbours contracted, replace_node
+    with an incompatible tensor, rename of a missing node) after which the sequence goes on. Returns (tree, log, rejected calls that
+    were ACCEPTED or changed the tree)."""
+    import pickle
+    from pytreenet.core.node import Node
+    from pytreenet.core.graph_node import GraphNode
+    from pytreenet.util.tensor_splitting import SVDParameters
+    nprs = np.random.RandomState(rng.randrange(2 ** 31))
+    log, bad = [], []
+    freed = []
+    cnt = [0]
+
+    def fresh(base=None):
+        cnt[0] += 1
+        x = rng.random()
+        ids = list(ref.nodes)
+        if freed and x < 0.3:
+            c = freed.pop(rng.randrange(len(freed)))
+            if c not in ref.nodes:
+                return c
+        if base is not None and x < 0.55:
+            c = base + rng.choice(["0", "_new", "contr", "'", " "])
+        elif x < 0.7:
+            c = rng.choice(ids)[:-1] or "r"
+        else:
+            c = rng.choice(["A", "B", "node", "x", "site", "n"]) + str(cnt[0])
+        while c in ref.nodes:
+            c = c + "_"
+        return c
+
+    def rand(shape):
+        return nprs.standard_normal(tuple(shape)) + 1j * nprs.standard_normal(tuple(shape))
+
+    for _ in range(nedits):
+        ids = list(ref.nodes)
+        ops = ["rename", "rename", "copy", "reject"] if bare else ["rename", "rename", "replace", "replace", "resplit", "resplit", "resplit",
+                                                                      "newroot", "copy", "reject"]
+        op = rng.choice(ops)
+        if op == "resplit" and len(ids) < 2:
+            op = "rename"
+        if op == "rename":
+            old = rng.choice(ids)
+            new = fresh(old)
+            ref.change_node_identifier(new, old)
+            freed.append(old)
+            log.append(f"change_node_identifier({new!r}, {old!r})")
+        elif op == "replace":
+            old = rng.choice(ids)
+            new = fresh(old)
+            shape = list(ref.tensors[old].shape)
+            if rng.random() < 0.4:
+                shape.append(rng.choice([1, 2]))
+            ref.replace_node(new, old, rand(shape))
+            freed.append(old)
+            log.append(f"replace_node({new!r}, {old!r}, shape {shape})")
+        elif op == "resplit":
+            c = rng.choice([k for k in ids if ref.nodes[k].parent is not None])
+            p = ref.nodes[c].parent
+            a, b = (p, c) if rng.random() < 0.6 else (c, p)
+            sa, sb = ref.legs_before_combination(a, b)
+            tmp = "" if rng.random() < 0.5 else fresh()
+            ref.contract_nodes(a, b, new_identifier=tmp)
+            tmp = tmp or (a + "contr" + b)
+            na, nb = (a, b) if rng.random() < 0.6 else (fresh(a), fresh(b))
+            while nb == na:
+                nb = nb + "_"
+            if rng.random() < 0.5:
+                ref.split_node_qr(tmp, sa, sb, q_identifier=na, r_identifier=nb)
+                how = "qr"
+            else:
+                ref.split_node_svd(tmp, sa, sb, u_identifier=na, v_identifier=nb, svd_params=SVDParameters(max_bond_dim=64, rel_tol=0, total_tol=0))
+                how = "svd"
+            for x in (a, b):
+                if x not in (na, nb):
+                    freed.append(x)
+            log.append(f"contract_nodes({a!r}, {b!r}) + split_node_{how} -> {na!r}, {nb!r}")
+        elif op == "newroot":
+            root = ref.nodes[ref.root_id]
+            if root.nopen_legs() == 0:
+                log.append("newroot skipped (root has no open leg)")
+                continue
+            leg = root.nneighbours() + rng.randrange(root.nopen_legs())
+            d = ref.tensors[ref.root_id].shape[leg]
+            new = fresh()
+            t = rand([2, d]) if rng.random() < 0.5 else rand([d, 2])
+            ref.add_parent_to_root(leg, Node(tensor=t, identifier=new), t, list(t.shape).index(d) if t.shape[0] != t.shape[1] else 0)
+            log.append(f"add_parent_to_root({new!r})")
+        elif op == "copy":
+            if rng.random() < 0.5:
+                ref = copy.deepcopy(ref)
+                log.append("deepcopy")
+            else:
+                ref = pickle.loads(pickle.dumps(ref))
+                log.append("pickle round trip")
+        else:
+            before = (list(ref.nodes), tree_relations(ref), ref.root_id)
+            which = rng.choice(["missing", "missing"] if bare else ["nonneighbours", "badreplace", "missing"])
+            try:
+                if which == "nonneighbours":
+                    pairs = [(x, y) for x in ids for y in ids if x != y and ref.nodes[x].parent != y and ref.nodes[y].parent != x]
+                    if not pairs:
+                        continue
+                    x, y = rng.choice(pairs)
+                    what = f"contract_nodes({x!r}, {y!r}) of non-neighbours"
+                    ref.contract_nodes(x, y)
+                elif which == "badreplace":
+                    cands = [k for k in ids if ref.nodes[k].nneighbours() >= 1]
+                    if not cands:
+                        continue
+                    x = rng.choice(cands)
+                    shape = [dd + 1 for dd in ref.tensors[x].shape]
+                    what = f"replace_node('zz', {x!r}) with shape {shape}"
+                    ref.replace_node("zz", x, rand(shape))
+                else:
+                    what = "change_node_identifier of a missing node"
+                    ref.change_node_identifier(fresh(), "no such node")
+                bad.append(f"{what} was accepted")
+            except Exception as e:  # noqa
+                log.append(f"rejected: {what} ({type(e).__name__})")
+                if (list(ref.nodes), tree_relations(ref), ref.root_id) != before:
+                    bad.append(f"rejected call {what} changed the tree")
+    return ref, log, bad
+
+
+def bare_structure(ref):
+    """a bare TreeStructure of GraphNodes with the relations of `ref`, built root first through the public add_* methods"""
+    from pytreenet.core.tree_structure import TreeStructure
+    from pytreenet.core.graph_node import GraphNode
+    ts = TreeStructure()
+    ts.add_root(GraphNode(identifier=ref.root_id))
+    todo = [ref.root_id]
+    while todo:
+        k = todo.pop(0)
+        for c in ref.nodes[k].children:
+            ts.add_child_to_parent(GraphNode(identifier=c), k)
+            todo.append(c)
+    return ts
+
+
+# ---------------------------------------------------------------------------------------------------
 # identifier spellings
 # ---------------------------------------------------------------------------------------------------
 _PREFIX_ALPHABET = "abcdefghijklmnopqrstuvwxyzABCDEFXYZ0123456789_-. :/" + "äσ中"
@@ -543,7 +708,18 @@ class C19(Prop):
             "in the documented current order parent, children as attached, open legs) explicitly or, where it is the first open leg, by the default; all bonds of one dimension "
             "(45 %, so a wrong leg fits silently) or random dimensions 1..3; judged by identifiers, parents, chain lists, exact dense contraction against the einsum of the "
             "caller's tensors, and the documented axis order of the public tensors. non-trivial = at least 2 nodes / sites (histories: at least 2 builds; legs_build: at least "
-            "one call whose parent leg is not the first open leg)")
+            "one call whose parent leg is not the first open leg). [str7] Reference trees PRODUCED BY the library (from_tensor cases with `edits`): a random TTNS (2-7 nodes, 70 % "
+            "chain-like so that depth >= 3 is common; every 6th a bare TreeStructure) goes through 1-6 random public operations - change_node_identifier (fresh identifiers, "
+            "prefixes / extensions of other identifiers, identifiers freed earlier), replace_node (same legs or one more open leg), contract_nodes + split_node_qr / split_node_svd "
+            "(either argument order, default or explicit identifier of the contracted node, old or fresh identifiers for the halves), add_parent_to_root, deepcopy / pickle round "
+            "trips, and calls the library REJECTS (contract_nodes of non-neighbours, replace_node with an incompatible tensor, rename of a missing node: caught, tree must be "
+            "unchanged, sequence goes on) - and is then the reference tree of from_tensor with a random leg assignment, all three modes, full- and low-rank operators; the tree is "
+            "read ONLY through root_id / parent / children (never the order of the nodes dictionary) for the oracle, the rtree handed to the Coq model and the identifier map of "
+            "the tie; counters report how many of these trees list a node before its parent (and below a non-root node). Constructor histories (kind ctor_history): 2-5 constructor "
+            "calls (generate_binary_ttns, MatrixProductState / StarTreeTensorState.constant_product_state, constant_ftps; usually sharing bond / physical dimension) in ONE process, "
+            "each result used IN PLACE by the caller before the next call (normalise(), canonical_form at a random node, both, root / all tensors scaled through the public "
+            "tensors[...] arrays, a tensor zeroed or shifted, deepcopy + normalise); EVERY build is judged by the same dense oracle and tied to the same (stateless) Coq model as "
+            "a first call; each history runs in a forked child of the never-mutated harness process, so it reproduces alone (non-trivial = >= 2 builds with a use in between)")
     clauses = [
         ("F", "MPS from_tensor_list (all lengths, all root positions, all tensor lists on which no call raises): node dictionary in closed form: chain site0..site(L-1), "
               "dictionary order, neighbours i-1/i+1, requested root, parents toward the root, tensor axis 0 -> left neighbour, axis 1 -> right neighbour (site 0: axis 0), "
@@ -583,6 +759,12 @@ class C19(Prop):
               "first node of a chain / subchain as well as on later ones, mixed with default calls) is accepted, well-formed, has the documented identifiers, parents and chain lists, "
               "and contracts to the caller's tensors with every new node's axis 0 bound to the requested axis of its parent (exact on integer tensors); the public tensors have the "
               "documented axis order (parent, children as attached, open legs in their original order)"),
+        ("V", "[str7] from_tensor on reference trees that other library operations produced (renamed / replaced / contracted-and-re-split nodes, new roots, copies, rejected "
+              "calls in between; dictionary order no longer parent-before-child): accepted, well-formed, same root / parents / children in the same order as the reference tree's "
+              "RELATIONS, two open legs per node, contraction = the operator, reference tree left untouched; tied to the store model of C19_from_tensor_structure on the rtree read "
+              "off the relations (the theorem quantifies over all trees, not over dictionary orders)"),
+        ("V", "[str7] constructor histories: a constructor called after earlier results were normalised / canonicalised / scaled / overwritten in place yields the same network "
+              "(structure tie + trivial virtual tensors + exact dense product state) as a first call in a fresh process"),
         ("V", "histories: every model build on an object that was grown (and already used for earlier builds) equals -J sum_<ij> A_i A_j - g sum_i B_i over the sites and bonds "
               "the object has at that moment (term-level: one field term per site, one coupling per bond; dense Kronecker sum up to 9 sites), independent of earlier builds, "
               "earlier nearest_neighbours() calls and caller-side mutation of returned lists / Hamiltonians; documented identifiers hold for arbitrary prefixes up to 40 characters"),
@@ -598,6 +780,8 @@ class C19(Prop):
     assumptions = ["the Coq models of the constructors use parent_leg=None (the default first-open-leg rule); explicit parent legs are not modelled: the kind legs_build is "
                    "judged by the dense oracle only (no model tie), with the harness's own bookkeeping of the documented leg order (parent, children as attached, open legs)",
                    "from_tensor: leg_dict is a bijection nodes -> 0..n-1 and the reference tree has unique identifiers",
+                   "[str7] edited reference trees: an edit sequence that raises on a legal call or leaves a tree that is not well-formed (C02's invariant) is not a reference tree; such a "
+                   "case is skipped and counted (from_tensor:edited:edit-sequence-raised / tree-not-well-formed: 0 on the unchanged library) - those defects belong to C02 / C03",
                    "histories grow objects only through the public add_* / attach_* methods with qubit tensors carrying spare dimension-1 legs (first-open-leg rule); "
                    "add_parent_to_root is called with a node already linked to its tensor, as the library's own tests do; the Ising term lists of the Coq model are "
                    "stateless functions of the current structure, so the tie of a history is the per-build tie on the structure read off the object",
@@ -699,6 +883,12 @@ class C19(Prop):
             cases.append({"kind": "from_tensor", "seed": sd(), "nnodes": rng.choice([2, 3, 4]), "mode": ["QR", "SVD", "tSVD"][j % 3],
                           "lowrank": False, "mal": "dupleg"})
         # [/ext-C19F]
+        # [str7] reference trees produced / edited by other library operations (renamed, replaced, contracted and re-split nodes, new
+        # roots, copies, rejected calls in between): the node dictionary is no longer in parent-before-child order
+        for j in range((360 if th else 60) * budget_scale):
+            bare = j % 6 == 5
+            cases.append({"kind": "from_tensor", "seed": sd(), "nnodes": rng.choice([2, 3, 4, 4, 5, 5, 6, 7]), "mode": ["QR", "SVD", "tSVD"][j % 3],
+                          "lowrank": j % 5 == 4, "mal": False, "edits": rng.choice([1, 2, 2, 3, 4, 6]), "deep": rng.random() < 0.7, "bare": bare})
         # large local dimension: a bond whose exact rank (121) exceeds the default max_bond_dim (100)
         for mode in ["QR", "SVD", "tSVD"]:
             cases.append({"kind": "from_tensor", "seed": sd(), "nnodes": 2, "mode": mode, "lowrank": False, "mal": False, "dims": [11, 11]})
@@ -724,6 +914,28 @@ class C19(Prop):
         objs = sorted(GROWERS)
         for j in range((420 if th else 42) * budget_scale):
             cases.append({"kind": "ising_history", "seed": sd(), "obj": objs[j % len(objs)], "builds": rng.choice([2, 2, 3, 4])})
+        # [str7] constructor histories: several constructor calls in one process, earlier results used IN PLACE in between
+        for j in range((400 if th else 60) * budget_scale):
+            nsteps = rng.choice([2, 3, 3, 4, 5])
+            shared_bd, shared_dim = rng.choice([1, 2, 2, 3]), rng.choice([2, 2, 3])
+            focus = ["binary", "mps_cps", "star_cps", "ftps", None][j % 5]
+            steps = []
+            for _ in range(nsteps):
+                kind = focus if (focus and rng.random() < 0.7) else rng.choice(["binary", "mps_cps", "star_cps", "ftps"])
+                bd = shared_bd if rng.random() < 0.75 else rng.choice([1, 2, 3])
+                dim = shared_dim if rng.random() < 0.75 else rng.choice([1, 2, 3])
+                if kind == "binary":
+                    sub = {"kind": "binary", "n": rng.choice([2, 2, 3, 4, 5, 6, 7]), "bd": bd, "phys": dim, "seed": sd(), "mal": None}
+                elif kind == "mps_cps":
+                    n = rng.choice([2, 3, 4, 5])
+                    sub = self._cps_case(rng, rng.randrange(dim), dim, n, rng.randrange(n), rng.choice(["none", "ones", "rand"]))
+                elif kind == "star_cps":
+                    sub = {"kind": "star_cps", "sv": rng.randrange(dim), "dim": dim, "clen": rng.choice([1, 2, 3]), "nch": rng.choice([1, 2, 3]),
+                           "prefix": random_prefix(rng, ["site", "arm"])}
+                else:
+                    sub = {"kind": "ftps", "w": rng.choice([1, 2, 3]), "h": rng.choice([1, 2, 3]), "bd": bd, "phys": dim, "seed": sd()}
+                steps.append({"case": sub, "use": [rng.choice(self.USES) for _ in range(rng.choice([0, 1, 1, 1, 2, 3]))]})
+            cases.append({"kind": "ctor_history", "seed": sd(), "steps": steps})
         # stars / forks whose nodes are attached with an explicit parent_leg (oracle-only: the Coq model has the default rule)
         for j in range((400 if th else 48) * budget_scale):
             topo = "fork" if j % 3 else "star"
@@ -779,6 +991,8 @@ class C19(Prop):
             return case["n"] >= 2
         if k == "ising_history":
             return case["builds"] >= 2
+        if k == "ctor_history":
+            return len(case["steps"]) >= 2 and any(st["use"] for st in case["steps"][:-1])
         return True
 
     def distribution(self, cases):
@@ -789,6 +1003,8 @@ class C19(Prop):
                 c[f"mps_list:L={len(x['opens'])}"] += 1
             if x["kind"] == "from_tensor":
                 c[f"from_tensor:{x['mode']}"] += 1
+                if x.get("edits"):
+                    c["from_tensor:edited reference tree (generated)" + (":bare TreeStructure" if x.get("bare") else "")] += 1
             if x.get("mal"):
                 c[f"{x['kind']}:malformed"] += 1
             if x["kind"] == "ising_history":
@@ -850,6 +1066,7 @@ class C19(Prop):
         except Exception as e:  # noqa
             ob["error"] = exc_str(e)
             return ob
+        self._last = m
         pre = case["prefix"]
         ob["snap"] = snap_full(m)
         ob["lefts"] = [n.identifier for n in m.left_nodes]
@@ -905,6 +1122,7 @@ class C19(Prop):
         except Exception as e:  # noqa
             ob["error"] = exc_str(e)
             return ob
+        self._last = m
         pre = case["prefix"]
         ob["snap"] = snap_full(m)
         ob["lefts"] = [n.identifier for n in m.left_nodes]
@@ -950,6 +1168,7 @@ class C19(Prop):
             if valid:
                 ob["viol"] = f"valid parameters (state {sv}, dimension {dim}, chain_length {cl}, num_chains {nch}) raise {exc_str(e)}"
             return ob
+        self._last = m
         ob["snap"] = snap_full(m)
         ob["entries"] = {k: nonzeros(np.asarray(v)) for k, v in m._tensors.data.items()}
         ob["chains"] = [[n.identifier for n in ch] for ch in m.chains]
@@ -1154,6 +1373,7 @@ class C19(Prop):
             if not mal:
                 ob["viol"] = f"valid fork construction raised {exc_str(e)}"
             return ob
+        self._last = ft
         ob["snap"] = snap_full(ft)
         ob["main"] = [n.identifier for n in ft.main_chain]
         ob["subs"] = [[n.identifier for n in ch] for ch in ft.sub_chains]
@@ -1384,6 +1604,7 @@ class C19(Prop):
             if w >= 1 and h >= 1 and bd >= 1:
                 ob["viol"] = f"valid parameters raise {exc_str(e)}"
             return ob
+        self._last = ft
         ob["snap"] = snap_full(ft)
         ob["main"] = [n.identifier for n in ft.main_chain]
         ob["subs"] = [[n.identifier for n in ch] for ch in ft.sub_chains]
@@ -1449,6 +1670,7 @@ class C19(Prop):
             if not mal:
                 ob["viol"] = f"valid parameters raise {exc_str(e)}"
             return ob
+        self._last = t
         ob["snap"] = snap_full(t)
         tv = None
         for k, x in t._tensors.data.items():
@@ -1505,14 +1727,136 @@ class C19(Prop):
         ob["viol"] = v
         return ob
 
+    # ---- [str7] constructor calls in ONE process interleaved with in-place use of earlier results ------------------
+    _last = None
+    USES = ("normalise", "canon", "canon_normalise", "scale_root", "scale_all", "zero", "fill", "deepcopy_only")
+
+    def _use_network(self, net, use, rng):
+        """what a caller does with a state it got from a constructor; all of it through public members, all of it IN PLACE"""
+        ids = list(net.nodes)
+        if use == "normalise":
+            net.normalise()
+        elif use == "canon":
+            net.canonical_form(rng.choice(ids))
+        elif use == "canon_normalise":
+            net.canonical_form(rng.choice(ids))
+            net.normalise()
+        elif use == "scale_root":
+            x = net.tensors[net.root_id]
+            x *= rng.choice([2.0, -0.5, 3.0j, 0.125] if np.iscomplexobj(x) else [2.0, -0.5, 3.0, 0.125])
+        elif use == "scale_all":
+            for k in ids:
+                x = net.tensors[k]
+                x *= rng.choice([2.0, -1.0, 0.5j] if np.iscomplexobj(x) else [2.0, -1.0, 0.5])
+        elif use == "zero":
+            x = net.tensors[rng.choice(ids)]
+            x[...] = 0
+        elif use == "fill":
+            x = net.tensors[rng.choice(ids)]
+            x += 1.0
+        else:
+            copy.deepcopy(net).normalise()
+
+    def _impl_ctor_history(self, case):
+        """every history runs in a forked child of the (never mutated) harness process: the in-place use of results cannot leak from one
+        case into the next, so a reported history reproduces on its own (replay) exactly as in a fresh interpreter"""
+        import os
+        import pickle
+        try:
+            r, w = os.pipe()
+            pid = os.fork()
+        except OSError:
+            return self._ctor_history_body(case)
+        if pid == 0:
+            code = 0
+            try:
+                os.close(r)
+                self._stats = Counter()
+                try:
+                    out = (self._ctor_history_body(case), self._stats)
+                except Exception as e:  # noqa
+                    import traceback
+                    out = ({"harness_exception": exc_str(e), "tb": traceback.format_exc()[-2500:]}, Counter())
+                with os.fdopen(w, "wb") as f:
+                    pickle.dump(out, f)
+            except BaseException:  # noqa
+                code = 1
+            finally:
+                os._exit(code)
+        os.close(w)
+        with os.fdopen(r, "rb") as f:
+            data = f.read()
+        os.waitpid(pid, 0)
+        if not data:
+            return {"harness_exception": "history child process died without an observation"}
+        ob, stats = pickle.loads(data)
+        self._stats.update(stats)
+        return ob
+
+    def _ctor_history_body(self, case):
+        rng = random.Random(case["seed"])
+        ob = {"steps": [], "log": []}
+        v = None
+        for j, st in enumerate(case["steps"]):
+            sub = st["case"]
+            self._last = None
+            o = getattr(self, "_impl_" + sub["kind"])(sub)
+            ob["steps"].append(o)
+            self._stats[f"ctor_history:build:{sub['kind']}"] += 1
+            if o.get("viol") and v is None:
+                v = (f"build {j} ({sub['kind']} {({k: x for k, x in sub.items() if k not in ('kind', 'seed')})}) after {ob['log'] or 'nothing'}: {o['viol']}")
+            ob["log"].append(f"build {sub['kind']} " + " ".join(f"{k}={sub[k]}" for k in ("n", "bd", "dim", "w", "h", "clen", "nch", "root") if k in sub))
+            net = self._last
+            if net is None:
+                continue
+            for use in st["use"]:
+                try:
+                    self._use_network(net, use, rng)
+                    ob["log"].append(use)
+                    self._stats[f"ctor_history:use:{use}"] += 1
+                except Exception as e:  # noqa
+                    ob["log"].append(f"{use} raised {type(e).__name__}")
+                    self._stats["ctor_history:use raised"] += 1
+        self._last = None
+        ob["viol"] = v
+        return ob
+
     # ---- from_tensor -----------------------------------------------------------------------------------
     def _impl_from_tensor(self, case):
         from pytreenet.ttno.ttno_class import TTNO, Decomposition
         rng = random.Random(case["seed"])
         n = case["nnodes"]
         par = util.random_parents(rng, n)
-        ref = util.build_ttns(rng, par, phys=[2] * n, bond=1)
-        ids = [f"n{i}" for i in range(n)]
+        edits = case.get("edits")
+        edit_info = None
+        if edits:
+            # [str7] the reference tree is PRODUCED by other library operations; it is read through its parent / children relations
+            if case.get("deep"):
+                par = [None] + [i - 1 if rng.random() < 0.65 else rng.randrange(0, i) for i in range(1, n)]
+            ref = util.build_ttns(rng, par, phys=[2] * n, bond=None)
+            if case.get("bare"):
+                ref = bare_structure(ref)
+            try:
+                ref, elog, ebad = edit_reference_tree(ref, rng, edits, bare=bool(case.get("bare")))
+            except Exception as e:  # noqa
+                self._stats["from_tensor:edited:edit-sequence-raised"] += 1
+                return {"skip": f"edit sequence raised {exc_str(e)}"}
+            wf = None if case.get("bare") else well_formed(ref)
+            if wf is not None or ebad:
+                # not this property's business (C02 / C03): no reference tree to decompose onto
+                self._stats["from_tensor:edited:tree-not-well-formed"] += 1
+                return {"skip": f"edited tree unusable: {wf or ebad}"}
+            n = len(ref.nodes)
+            ids = list(ref.nodes)
+            inv, deep = order_inversions(ref)
+            self._stats["from_tensor:edited"] += 1
+            self._stats["from_tensor:edited:some-node-listed-before-its-parent"] += int(inv)
+            self._stats["from_tensor:edited:...below-a-non-root-node"] += int(deep)
+            edit_info = {"log": elog, "order": ids}
+        else:
+            ref = util.build_ttns(rng, par, phys=[2] * n, bond=1)
+            ids = [f"n{i}" for i in range(n)]
+        num = {k: i for i, k in enumerate(ids)}
         perm = list(range(n))
         rng.shuffle(perm)
         if case.get("mal") == "dupleg":          # [ext-C19F]
@@ -1543,16 +1887,19 @@ class C19(Prop):
         if mal and mal != "dupleg":
             T = T.reshape(T.shape + (1,))
             shape = list(T.shape)
-        children = {i: [int(c[1:]) for c in ref.nodes[ids[i]].children] for i in range(n)}
-        ob = {"children": children, "leg": [perm[i] for i in range(n)], "shape": [int(x) for x in shape], "root": int(ref.root_id[1:]),
-              "ref_struct": {k: [v.parent, list(v.children)] for k, v in ref.nodes.items()}}
+        children = {i: [num[c] for c in ref.nodes[ids[i]].children] for i in range(n)}
+        ob = {"children": children, "leg": [perm[i] for i in range(n)], "shape": [int(x) for x in shape], "root": num[ref.root_id],
+              "ref_struct": tree_relations(ref)}
+        if edit_info:
+            ob["names"], ob["n"], ob["edits"] = ids, n, edit_info["log"]
+        ref_before = (list(ref.nodes), tree_relations(ref), ref.root_id)
         try:
             with c19f.KernelSpy() as spy:                      # [ext-C19F] records the kernel calls
                 ttno = TTNO.from_tensor(ref, T.copy(), dict(leg), mode=Decomposition[case["mode"]])
         except Exception as e:  # noqa
             ob["error"] = exc_str(e)
             if not mal:
-                ob["viol"] = f"from_tensor raised {exc_str(e)}"
+                ob["viol"] = f"from_tensor raised {exc_str(e)}" + (f" on the reference tree {ob['ref_struct']} (dictionary order {ids}) after {edit_info['log']}" if edit_info else "")
             return ob
         ob["snap"] = snap_full(ttno)
         # [ext-C19F] kernel calls, bond dimensions, factor arrays (kept on the instance, not in the observation)
@@ -1566,6 +1913,10 @@ class C19(Prop):
             got = {k: [nd.parent, list(nd.children)] for k, nd in ttno.nodes.items()}
             if got != ob["ref_struct"]:
                 v = f"structure {got} differs from the reference tree {ob['ref_struct']}"
+            elif ttno.root_id != ref.root_id:
+                v = f"root {ttno.root_id!r}, reference tree {ref.root_id!r}"
+        if v is None and edit_info and (list(ref.nodes), tree_relations(ref), ref.root_id) != ref_before:
+            v = "from_tensor changed the reference tree it was given"
         if v is None:
             for k, nd in ttno.nodes.items():
                 if nd.nopen_legs() != 2:
@@ -1583,6 +1934,8 @@ class C19(Prop):
                         v = f"contraction differs from the input operator by {err:.3e} (mode {case['mode']})"
             except Exception as e:  # noqa
                 v = f"not contractible: {exc_str(e)}"
+        if v is not None and edit_info:
+            v += f" [reference tree {ob['ref_struct']}, dictionary order {ids}, produced by {edit_info['log']}]"
         ob["viol"] = v
         return ob
 
@@ -1880,11 +2233,14 @@ class C19(Prop):
             return (f"bind (binary_ttns ({coq_z(ob['n'])})%Z ({coq_z(ob['bd'])})%Z {nat_list(ob['pshape'])}) "
                     f"(fun sl => Some (obs_store (fst sl), obs_labels (snd sl), wfb (fst sl)))")
         if k == "from_tensor":
+            if "skip" in ob:
+                return None
             ch = {int(a): b for a, b in ob["children"].items()}
             old = (f"from_tensor_nodes {rtree_coq(ch, ob['root'])} (fun i => nth i {nat_list(ob['leg'])} 0) {nat_list(ob['shape'])}")
             # [ext-C19F] the store-level program next to the shape-level model
-            tb = {int(k[1:]): v for k, v in ob.get("f", {}).get("tb", {}).items()}
-            return "(" + old + ", " + c19f.model_expr(rtree_coq(ch, ob['root']), c["nnodes"], ob["leg"], ob["shape"], c["mode"], tb) + ")"
+            num = {k: i for i, k in enumerate(ob["names"])} if "names" in ob else None
+            tb = {(num[k] if num else int(k[1:])): v for k, v in ob.get("f", {}).get("tb", {}).items()}
+            return "(" + old + ", " + c19f.model_expr(rtree_coq(ch, ob['root']), ob.get("n", c["nnodes"]), ob["leg"], ob["shape"], c["mode"], tb) + ")"
             # [/ext-C19F]
         if k == "ising_tree":
             ch = {int(a): b for a, b in ob["children"].items()}
@@ -1895,6 +2251,9 @@ class C19(Prop):
             return f"ising_of_grid ({coq_z(c['rows'])})%Z ({coq_z(c['cols'])})%Z"
         if k == "exact":
             return f"exact_ising_terms {coq_nat(c['n'])}"
+        if k == "ctor_history":
+            # stateless constructors: the tie of a history is the tie of every build (the model has no shared state to poison)
+            return "(true, " + ", ".join(self._model_expr(st["case"], o) for st, o in zip(c["steps"], ob["steps"])) + ")"
         if k == "ising_history":
             items = []
             for st in self._tied_stages(ob):
@@ -2055,6 +2414,16 @@ class C19(Prop):
         self._wfb(wf, case)
         return None
 
+    def _cmp_ctor_history(self, case, ob, mo):
+        vals = list(mo)[1:]
+        if len(vals) != len(case["steps"]):
+            return f"model evaluated {len(vals)} builds for {len(case['steps'])} steps"
+        for j, (st, o, m) in enumerate(zip(case["steps"], ob["steps"], vals)):
+            d = getattr(self, "_cmp_" + st["case"]["kind"])(st["case"], o, m)
+            if d:
+                return f"build {j} ({st['case']['kind']}) after {ob['log']}: {d}"
+        return None
+
     def _cmp_from_tensor(self, case, ob, mo):
         # [ext-C19F] mo = (shape-level model, store-level model)
         mo, mo_f = mo
@@ -2067,7 +2436,7 @@ class C19(Prop):
             return msg
         nodes = mo[1]
         impl = ob["snap"]["nodes"]
-        name = lambda k: f"n{k}"
+        name = (lambda k: ob["names"][k]) if "names" in ob else (lambda k: f"n{k}")
         if len(impl) != len(nodes):
             return f"{len(impl)} nodes, model {len(nodes)}"
         for a, (k, par, ch, shape) in zip(impl, nodes):
